@@ -60,15 +60,17 @@ func (c *Consistent) hash(key string) int64 {
 // pick get a  node
 func (c *Consistent) pick(sessions *sync.Map, key string) getty.Session {
 	hashKey := c.hash(key)
+
+	c.RLock()
 	index := sort.Search(len(c.sortedHashNodes), func(i int) bool {
 		return c.sortedHashNodes[i] >= hashKey
 	})
 
 	if index == len(c.sortedHashNodes) {
+		c.RUnlock()
 		return RandomLoadBalance(sessions, key)
 	}
 
-	c.RLock()
 	session, ok := c.hashCircle[c.sortedHashNodes[index]]
 	if !ok {
 		c.RUnlock()
@@ -108,6 +110,8 @@ func (c *Consistent) refreshHashCircle(sessions *sync.Map) {
 		return sortedHashNodes[i] < sortedHashNodes[j]
 	})
 
+	c.Lock()
+	defer c.Unlock()
 	c.sortedHashNodes = sortedHashNodes
 	c.hashCircle = hashCircle
 }
@@ -125,38 +129,18 @@ func (c *Consistent) firstKey() getty.Session {
 
 func newConsistenceInstance(sessions *sync.Map) *Consistent {
 	once.Do(func() {
-		consistentInstance = &Consistent{
+		c := &Consistent{
 			hashCircle: make(map[int64]getty.Session),
 		}
 		// construct hash circle
-		sessions.Range(func(key, value interface{}) bool {
-			session := key.(getty.Session)
-			for i := 0; i < defaultVirtualNodeNumber; i++ {
-				if !session.IsClosed() {
-					position := consistentInstance.hash(fmt.Sprintf("%s%d", session.RemoteAddr(), i))
-					consistentInstance.put(position, session)
-					consistentInstance.sortedHashNodes = append(consistentInstance.sortedHashNodes, position)
-				} else {
-					sessions.Delete(key)
-				}
-			}
-			return true
-		})
-
-		// virtual node sort
-		sort.Slice(consistentInstance.sortedHashNodes, func(i, j int) bool {
-			return consistentInstance.sortedHashNodes[i] < consistentInstance.sortedHashNodes[j]
-		})
+		c.refreshHashCircle(sessions)
+		consistentInstance = c
 	})
 
 	return consistentInstance
 }
 
 func ConsistentHashLoadBalance(sessions *sync.Map, xid string) getty.Session {
-	if consistentInstance == nil {
-		newConsistenceInstance(sessions)
-	}
-
 	// pick a node
-	return consistentInstance.pick(sessions, xid)
+	return newConsistenceInstance(sessions).pick(sessions, xid)
 }
